@@ -17,6 +17,7 @@ VERIF = os.path.dirname(os.path.dirname(os.path.abspath(__file__)))
 REPO = os.environ.get("VERIF_REPO", "/repo")
 BUILD = os.environ.get("VERIF_BUILD", os.path.join(VERIF, ".build"))
 SPEC = os.path.join(VERIF, "spec")
+OUT = os.environ.get("VERIF_OUT_DIR", os.path.join(VERIF, "out"))
 TLA_CP = "/opt/veriftools/tla/tla2tools.jar:/opt/veriftools/tla/CommunityModules-deps.jar"
 NCPU = os.cpu_count() or 4
 
@@ -220,7 +221,7 @@ def known_findings(pid):
 
 def save_replay(pid, name, payload):
     """Store a counterexample under out/replays/<pid>/<name>.json and return the path."""
-    d = os.path.join(VERIF, "out", "replays", pid)
+    d = os.path.join(OUT, "replays", pid)
     os.makedirs(d, exist_ok=True)
     p = os.path.join(d, name + ".json")
     with open(p, "w") as f:
@@ -251,7 +252,7 @@ def verdict(pid, violations):
 
 
 def write_evidence(pid, tier, seed, level, coverage, wall_s, violations=0, assumptions=()):
-    d = os.path.join(VERIF, "evidence")
+    d = os.environ.get("VERIF_EVIDENCE_DIR", os.path.join(VERIF, "evidence"))
     os.makedirs(d, exist_ok=True)
     ev = {
         "property_id": pid,
@@ -273,3 +274,37 @@ def seed_from_env():
         return int(os.environ.get("VERIF_SEED", "1"))
     except ValueError:
         return 1
+
+
+# ------------------------------------------------------------------ C++ unit harnesses linked against the built objects
+def core_objects():
+    d = os.path.join(BUILD, "lib", "CMakeFiles", "cppcheck-core.dir")
+    objs = []
+    for root, _dirs, files in os.walk(d):
+        for fn in files:
+            if fn.endswith(".o"):
+                objs.append(os.path.join(root, fn))
+    return sorted(objs)
+
+
+def build_harness(src, name=None, extra_flags=(), with_cli=False):
+    """Compile harness/<src> against the objects of the current hooked build (rebuilt from /repo first).
+    Returns the path of the executable (under .build/harness)."""
+    build()
+    srcp = src if os.path.isabs(src) else os.path.join(VERIF, "harness", src)
+    outd = os.path.join(BUILD, "harness")
+    os.makedirs(outd, exist_ok=True)
+    exe = os.path.join(outd, name or os.path.splitext(os.path.basename(src))[0])
+    libs = [os.path.join(BUILD, "lib", "libsimplecpp.a"), os.path.join(BUILD, "lib", "libtinyxml2.a")]
+    if with_cli:
+        libs = [os.path.join(BUILD, "lib", "libcli.a"), os.path.join(BUILD, "lib", "libfrontend.a")] + libs
+    cmd = ["g++", "-std=c++11", "-O1", "-g0", "-DDANMAR_CPPCHECK_VERIF", "-w",
+           "-I" + os.path.join(REPO, "lib"), "-I" + os.path.join(REPO, "cli"), "-I" + os.path.join(REPO, "frontend"),
+           "-I" + os.path.join(REPO, "externals"), "-I" + os.path.join(REPO, "externals", "simplecpp"),
+           "-I" + os.path.join(REPO, "externals", "tinyxml2"), "-I" + os.path.join(REPO, "externals", "picojson"),
+           "-I" + os.path.join(BUILD, "lib"),
+           srcp] + list(extra_flags) + (libs[:2] if with_cli else []) + core_objects() + libs[-2:] + ["-lpthread", "-o", exe]
+    rc, out, err = run(cmd, timeout=900)
+    if rc != 0:
+        raise InfraError("harness build failed: %s\n%s" % (src, (out + err)[-3000:]))
+    return exe
